@@ -193,8 +193,11 @@ func (h *evmHist) bounds(op string, cause string) {
 	h.leak = leak
 	if size > 3*lim {
 		h.tr("  !! Size() %d > pendingLimit+waitingLimit+extLimit = %d", size, 3*lim)
-		h.violate("bound:Size()>configured-limits:"+h.leakCause,
-			fmt.Sprintf("Size() = %d exceeds pendingLimit+waitingLimit+extLimit = %d (%s)", size, 3*lim, countsString(c, size)), nil)
+		key := "bound:Size()>configured-limits:lookup-map-leak"
+		if c.All <= c.Pending+c.Waiting {
+			key = "bound:Size()>configured-limits:other"
+		}
+		h.violate(key, fmt.Sprintf("Size() = %d exceeds pendingLimit+waitingLimit+extLimit = %d (%s; last growth of the lookup map beyond the queues: %s)", size, 3*lim, countsString(c, size), h.leakCause), nil)
 	}
 	if c.Pending >= lim || c.Waiting >= lim {
 		if !h.capacity {
